@@ -57,7 +57,7 @@ Theorem C08_correct_positions :
   forall i d, i < length pred ->
     nth i (gpf_drawn gc zs pred old) d =
     let b := belief_at (gc (gm_of pred) (gm_of old)) i in
-    madd (gmean b) (mmul (msqrt (gcov b)) (nth i zs (mzero n 1))).
+    madd (gmean b) (mmul (ldlt_sqrt (gcov b)) (nth i zs (mzero n 1))).
 Proof. exact (correct_positions_full O n gc lik trans zs pred old). Qed.
 
 (* the likelihood model is evaluated on the drawn positions, and its verdict and
@@ -69,9 +69,14 @@ Proof. exact (correct_likelihood_on_drawn O n gc lik trans zs pred old). Qed.
 
 (* lw'_i = lw_i + ln(l_i + eps) + ln(t_i + eps) - ln(q_i + eps), q_i the Gaussian
    density of the corrected belief at the drawn position, t_i the transition
-   density of (previous positions, drawn positions) *)
+   density of (previous positions, drawn positions).  Premises: the likelihood model returns
+   one value per position and the transition model one value per pair (their contracts; with
+   fewer values GPFCorrection.cpp:125-130 reads past the end of the vectors) *)
 Theorem C08_weight_formula :
-  fst (lik (gpf_drawn gc zs pred old)) = true -> forall (i : nat) (d : particle O n), i < length pred ->
+  fst (lik (gpf_drawn gc zs pred old)) = true ->
+  length (snd (lik (gpf_drawn gc zs pred old))) = length pred ->
+  length (trans (map pstate pred) (gpf_drawn gc zs pred old)) = length pred ->
+  forall (i : nat) (d : particle O n), i < length pred ->
   plw (nth i (cr_particles (gpf_correct gc lik trans zs pred old)) d) =
   let xs := gpf_drawn gc zs pred old in
   let b := belief_at (gc (gm_of pred) (gm_of old)) i in
@@ -79,7 +84,7 @@ Theorem C08_weight_formula :
              (nth i (snd (lik xs)) (s0 (sc O)))
              (nth i (trans (map pstate pred) xs) (s0 (sc O)))
              (density (nth i xs (mzero n 1)) (gmean b) (gcov b)).
-Proof. exact (correct_weight O n gc lik trans zs pred old). Qed.
+Proof. exact (correct_weight_guarded O n gc lik trans zs pred old). Qed.
 
 (* an invalid likelihood returns the predicted set, whole (C12's clause) *)
 Theorem C08_invalid_restores :
@@ -113,6 +118,27 @@ Proof. exact (gpf_trace_run O n st h k d). Qed.
 Theorem C08_kf_steps_shape_ok m (F Q : M O n n) (H : M O m n) (R : M O m m) (y : M O m 1) v :
   shape_ok O n (kf_pred_gstep F Q) /\ shape_ok O n (kf_corr_gstep v H R y).
 Proof. exact (conj (kf_pred_gstep_shape O n F Q) (kf_corr_gstep_shape O n m H R y v)). Qed.
+
+(* ... and so are the unscented steps (C05's models over any measurement function) and a skipping step *)
+Theorem C08_unscented_steps_shape_ok m v w (h : M O n 1 -> M O m 1) (R : M O m m) (y : M O m 1) :
+  shape_ok O n (ukf_corr_gstep v w h R y) /\ shape_ok O n (sukf_corr_gstep v w h R y) /\ shape_ok O n (@copy_gstep O n).
+Proof. exact (conj (ukf_corr_gstep_shape O n m v w h R y) (conj (sukf_corr_gstep_shape O n m v w h R y) (copy_gstep_shape O n))). Qed.
+
+(* GaussianLikelihood honours its contract: one value per position whenever it reports valid *)
+Theorem C08_gauss_lik_length m scale v1 v2 v3 v4 (h : M O n 1 -> M O m 1) R y (xs : list (M O n 1)) :
+  fst (gauss_lik_h scale v1 v2 v3 v4 h R y xs) = true ->
+  length (snd (gauss_lik_h scale v1 v2 v3 v4 h R y xs)) = length xs.
+Proof. exact (gauss_lik_h_length O n m scale v1 v2 v3 v4 h R y xs). Qed.
+
+(* PF-level skip flags (the check runs pf_trace): without them it is gpf_trace; a skipped
+   correction returns the predicted set and keeps valid_likelihood_ / likelihood_ *)
+Theorem C08_pf_trace_noskip (st : fstate O n) h :
+  pf_trace st (map (fun s => (s, (false, false))) h) = gpf_trace st h.
+Proof. exact (pf_trace_noskip O n st h). Qed.
+Theorem C08_pf_skip_correction (st : fstate O n) s sp :
+  let st' := pf_step st (s, (sp, true)) in
+  fs_corr st' = fs_pred st' /\ fs_valid st' = fs_valid st /\ fs_lik st' = fs_lik st.
+Proof. exact (pf_step_skip_correction O n st s sp). Qed.
 End C08_structure.
 
 (* ------------------------------------------------------------------ lifetime (World C)
@@ -218,6 +244,7 @@ Theorem C08_step_weight_product_form
   let O := ListMat C08_ROps sq eg in
   let xs := gpf_drawn gc zs pred old in
   fst (lik xs) = true -> (i < length pred)%nat ->
+  length (snd (lik xs)) = length pred -> length (trans (map pstate pred) xs) = length pred ->
   let li := nth i (snd (lik xs)) 0 in
   let ti := nth i (trans (map pstate pred) xs) 0 in
   let b := belief_at (gc (gm_of pred) (gm_of old)) i in
@@ -250,7 +277,7 @@ Theorem C08_weights_telescope
   let O := ListMat C08_ROps sq eg in
   length (fs_pred st) = N -> length (fs_corr st) = N ->
   Forall (fun s => shape_ok O n (si_gp s) /\ shape_ok O n (si_gc s)) h ->
-  all_valid sq eg n st h -> (i < N)%nat ->
+  all_valid sq eg n N st h -> (i < N)%nat ->
   plw (nth i (fs_corr (gpf_run st h)) (dparticle O n)) =
   plw (nth i (fs_corr st) (dparticle O n)) + incr_sum sq eg n st h i.
 Proof. exact (weights_telescope sq eg n N h st i). Qed.
@@ -270,10 +297,10 @@ Variable eg : forall n, 'M[F]_n -> 'M[F]_(n,1).
 Let O := MxMat tr sq eg.
 Variable n : nat.
 
-(* Mahalanobis identity: for SPD P and any factor L = msqrt P with L L^T = P, the
+(* Mahalanobis identity: for SPD P and the factor L = ldlt_sqrt P, under its contract L L^T = P, the
    drawn position x = m + L z satisfies (x-m)^T P^-1 (x-m) = z^T z *)
 Theorem C08_mahalanobis (m z : M O n 1) (P : M O n n) :
-  spd (P : 'M[F]_n) -> (msqrt P : 'M[F]_n) *m (msqrt P : 'M[F]_n)^T = P ->
+  spd (P : 'M[F]_n) -> (ldlt_sqrt (O:=O) P : 'M[F]_n) *m (ldlt_sqrt (O:=O) P : 'M[F]_n)^T = P ->
   quadform (O:=O) (msub (sample_from_proposal m P z) m) (minv P) = quadform (O:=O) z (mid n)
   /\ quadform (O:=O) z (mid n) = \sum_i (z : 'cV[F]_n) i 0 ^+ 2.
 Proof. exact: mahalanobis_full. Qed.
@@ -283,7 +310,7 @@ Theorem C08_correct_mahalanobis (gc : gstep O n) lik trans (zs : list (M O n 1))
   (i : nat) (d : particle O n) :
   fst (lik (gpf_drawn gc zs pred old)) = true -> (i < length pred)%coq_nat ->
   let P := gcov (belief_at (gc (gm_of pred) (gm_of old)) i) in
-  spd (P : 'M[F]_n) -> (msqrt P : 'M[F]_n) *m (msqrt P : 'M[F]_n)^T = P ->
+  spd (P : 'M[F]_n) -> (ldlt_sqrt (O:=O) P : 'M[F]_n) *m (ldlt_sqrt (O:=O) P : 'M[F]_n)^T = P ->
   let p := List.nth i (cr_particles (gpf_correct gc lik trans zs pred old)) d in
   quadform (O:=O) (msub (pstate p) (pmean p)) (minv (pcov p)) =
   quadform (O:=O) (List.nth i zs (mzero n 1)) (mid n).
@@ -292,7 +319,7 @@ Proof. exact: correct_mahalanobis. Qed.
 (* hence the proposal log-density at the drawn position is
    -1/2 (n ln 2pi + ln det P + z^T z): it depends on the draw through |z|^2 only *)
 Theorem C08_proposal_log_density (m z : M O n 1) (P : M O n n) :
-  spd (P : 'M[F]_n) -> (msqrt P : 'M[F]_n) *m (msqrt P : 'M[F]_n)^T = P ->
+  spd (P : 'M[F]_n) -> (ldlt_sqrt (O:=O) P : 'M[F]_n) *m (ldlt_sqrt (O:=O) P : 'M[F]_n)^T = P ->
   log_density (O:=O) (sample_from_proposal m P z) m P =
   smul (sc O) (sopp (sc O) (shalf (sc O)))
        (sadd (sc O) (sadd (sc O) (smul (sc O) (sofnat (sc O) n) (sln (sc O) (smul (sc O) (s2 (sc O)) (spi (sc O)))))
@@ -321,7 +348,7 @@ Theorem C08_kf_mahalanobis (m : nat) (H : M O m n) (R : M O m m) (y : M O m 1)
   List.Forall (fun p : particle O n => spd (pcov p : 'M[F]_n)) pred ->
   (i < length pred)%coq_nat ->
   let p := List.nth i (cr_particles (gpf_correct (kf_corr_gstep true H R y) lik trans zs pred old)) d in
-  (msqrt (pcov p) : 'M[F]_n) *m (msqrt (pcov p) : 'M[F]_n)^T = pcov p ->
+  (ldlt_sqrt (O:=O) (pcov p) : 'M[F]_n) *m (ldlt_sqrt (O:=O) (pcov p) : 'M[F]_n)^T = pcov p ->
   spd (pcov p : 'M[F]_n) /\
   quadform (O:=O) (msub (pstate p) (pmean p)) (minv (pcov p)) =
   quadform (O:=O) (List.nth i zs (mzero n 1)) (mid n).
@@ -335,17 +362,23 @@ Example C08_premises_satisfiable (F : realFieldType) n :
 Proof. by split; [exact: spd1 | rewrite trmx1 mulmx1]. Qed.
 
 (* the executable instance of the same model over exact rationals: two particles in
-   dimension 2, Kalman steps as wrapped steps, P = L L^T with a rational factor served
-   by the square-root oracle.  (Over Q the record's ln / exp are the identity and
-   eps = 0, so the weight update reads lw + l + t - q: the structure is what is tested.)
-   Checked: positions and weights untouched by the prediction; predicted beliefs
-   F m, F P F^T + Q; after the correction x_i = m_i + L z_i and the Mahalanobis identity
-   (x_i - m_i)^T P_i^-1 (x_i - m_i) = z_i^T z_i; an invalid likelihood returns the predicted set. *)
+   dimension 2, Kalman steps as wrapped steps.  (Over Q the record's ln / exp are the identity
+   and eps = 0, so the weight update reads lw + l + t - q: the structure is what is tested; the
+   square root is a table on the values that occur in the LDL^T of P.)
+   Checked: the pivoted LDL^T factor of P (pivot on the second diagonal entry) is [[1/2,3/2],[2,0]]
+   and L L^T = P; positions and weights untouched by the prediction; predicted beliefs
+   F m, F P F^T + Q; after the correction x_i = m_i + ldlt_sqrt(P_i) z_i; the Mahalanobis identity
+   (x - m)^T P^-1 (x - m) = z^T z = 5 for the draw z = (1,-2); an invalid likelihood returns the
+   predicted set. *)
 Open Scope Q_scope.
-Definition QL : list (list Q) := [:: [:: 1#1; 0#1]; [:: 1#2; 3#2]]%Q.
-Definition QM8 := ListMat QOps (fun _ _ => QL) (fun _ A => A).
+Definition qsqrt8 (q : Q) : Q :=
+  if Qeq_bool q (4#1) then 2#1 else if Qeq_bool q (9#4) then 3#2 else q.
+Definition QOps8 : SOps :=
+  mkSOps Q (s0 QOps) (s1 QOps) (sadd QOps) (ssub QOps) (smul QOps) (sdiv QOps) (sopp QOps) (sleb QOps) (sltb QOps)
+         (sofZ QOps) qsqrt8 (sexp QOps) (sln QOps) (scos QOps) (ssin QOps) (sacos QOps) (satan2 QOps) (spi QOps) (stiny QOps).
+Definition QM8 := ListMat QOps8 (fun _ A => A) (fun _ A => A).
 Example C08_concrete_Q :
-  let P := [:: [:: 1#1; 1#2]; [:: 1#2; 5#2]]%Q in                (* = QL QL^T *)
+  let P := [:: [:: 5#2; 1#1]; [:: 1#1; 4#1]]%Q in
   let Fm := [:: [:: 1#1; 1#2]; [:: 0#1; 1#1]]%Q in
   let Qm := [:: [:: 1#3; 0#1]; [:: 0#1; 1#3]]%Q in
   let Hm := [:: [:: 1#1; 0#1]]%Q in
@@ -365,16 +398,18 @@ Example C08_concrete_Q :
   let m0 := [:: [:: 1#2]; [:: -1#1]]%Q in
   let z0 := [:: [:: 1#1]; [:: -2#1]]%Q in
   let x0 := @sample_from_proposal QM8 2 m0 P z0 in
+  let L := @ldlt_sqrt QM8 2 P in
   qmx_eqb (List.concat (List.map pstate pred)) (List.concat (List.map pstate prev))
   && qmx_eqb [:: List.map plw pred] [:: List.map plw prev]
   && qmx_eqb (pmean (List.nth 0%nat pred junk)) [:: [:: 0#1]; [:: -1#1]]%Q
-  && qmx_eqb (pcov (List.nth 0%nat pred junk)) [:: [:: 59#24; 7#4]; [:: 7#4; 17#6]]%Q
-  && qmx_eqb (pstate c1) (@madd QM8 2 1 (pmean c1) (@mmul QM8 2 2 1 QL (List.nth 0%nat zs [::])))
+  && qmx_eqb (pcov (List.nth 0%nat pred junk)) [:: [:: 29#6; 3#1]; [:: 3#1; 13#3]]%Q
+  && qmx_eqb (pstate c1) (@madd QM8 2 1 (pmean c1) (@mmul QM8 2 2 1 (@ldlt_sqrt QM8 2 (pcov c1)) (List.nth 0%nat zs [::])))
   && cr_valid r && negb (cr_valid r0)
   && qmx_eqb (List.concat (List.map pstate (cr_particles r0))) (List.concat (List.map pstate pred))
   && qmx_eqb [:: List.map plw (cr_particles r0)] [:: List.map plw pred]
   && Nat.eqb (List.length (cr_particles r)) 2%nat
-  && qmx_eqb (@mmul QM8 2 2 2 QL (@mtr QM8 2 2 QL)) P
+  && qmx_eqb L [:: [:: 1#2; 3#2]; [:: 2#1; 0#1]]%Q
+  && qmx_eqb (@mmul QM8 2 2 2 L (@mtr QM8 2 2 L)) P
   && Qeq_bool (@quadform QM8 2 (@msub QM8 2 1 x0 m0) (@minv QM8 2 P)) (5#1) = true.
 Proof. vm_compute. reflexivity. Qed.
 
@@ -389,6 +424,10 @@ Print Assumptions C08_correct_count.
 Print Assumptions C08_multi_step.
 Print Assumptions C08_trace_is_run.
 Print Assumptions C08_kf_steps_shape_ok.
+Print Assumptions C08_unscented_steps_shape_ok.
+Print Assumptions C08_gauss_lik_length.
+Print Assumptions C08_pf_trace_noskip.
+Print Assumptions C08_pf_skip_correction.
 Print Assumptions C08_draws_from_own_generator.
 Print Assumptions C08_draw_touches_own_generator_only.
 Print Assumptions C08_move_construct.
